@@ -224,12 +224,22 @@ size_t carquet_bitunpack_32(const uint8_t* input, size_t count,
 
     /* Handle remaining values */
     if (i < count) {
+        /* Only ceil(remaining * bit_width / 8) input bytes belong to the caller:
+         * unpack the partial group from a zero-padded copy instead of reading
+         * a full group of bit_width bytes past the end of the packed data. */
         uint32_t temp[8];
-        carquet_bitunpack8_32(input + bytes_consumed, bit_width, temp);
+        uint8_t padded[32] = {0};
+        size_t remaining_bytes = carquet_packed_size(count - i, bit_width);
+        if (bit_width <= 32 && remaining_bytes <= sizeof(padded)) {
+            memcpy(padded, input + bytes_consumed, remaining_bytes);
+            carquet_bitunpack8_32(padded, bit_width, temp);
+        } else {
+            carquet_bitunpack8_32(input + bytes_consumed, bit_width, temp);
+        }
         for (size_t j = 0; j < count - i; j++) {
             values[i + j] = temp[j];
         }
-        bytes_consumed += carquet_packed_size(count - i, bit_width);
+        bytes_consumed += remaining_bytes;
     }
 
     return bytes_consumed;
